@@ -42,13 +42,21 @@ Proof. exact scan_sorted_ok. Qed.
 
 (* the state changes produced at the end are exactly the overlaid differences: committing the
    final StateUpdates (Delta = set/delete per key) to the base database gives, at every key of every
-   partition not marked by delete_partition, exactly the view. (A partition marked for deletion is
-   reset and then holds only the values written in this transaction; partition deletion belongs to
-   C07 and is covered here by correspondence only.) *)
+   partition not marked by delete_partition, exactly the view. *)
 Theorem C12_state_updates_exact : forall db t s n p k, db_wf db -> reach db t s ->
   iset_mem (n, p) (v_del s) = false ->
   apply_su (snd (to_state_updates t)) db n p k = al_get k (v_view s n p).
 Proof. exact state_updates_exact. Qed.
+
+(* a partition marked by delete_partition is reset: after the commit it holds exactly the values this
+   transaction wrote into it (Set updates of tracked substates), each equal to the view at that key,
+   and nothing of the base database *)
+Theorem C12_state_updates_deleted : forall db t s n p k, db_wf db -> reach db t s ->
+  iset_mem (n, p) (v_del s) = true ->
+  apply_su (snd (to_state_updates t)) db n p k =
+    match tlookup (t_nodes t) n p k with Some tv => written_value tv | None => None end
+  /\ forall v, apply_su (snd (to_state_updates t)) db n p k = Some v -> al_get k (v_view s n p) = Some v.
+Proof. exact state_updates_deleted. Qed.
 
 (* force_write panics exactly when the substate has no tracked entry (it was never loaded) *)
 Theorem C12_force_write_panics_iff : forall t n p k,
@@ -91,6 +99,7 @@ Print Assumptions C12_scan_keys.
 Print Assumptions C12_drain.
 Print Assumptions C12_scan_sorted.
 Print Assumptions C12_state_updates_exact.
+Print Assumptions C12_state_updates_deleted.
 Print Assumptions C12_force_write_panics_iff.
 Print Assumptions C12_revert.
 Print Assumptions C12_read_after_revert_refuted.
